@@ -457,11 +457,21 @@ def finish(ctx, replay_fn=None):
                     v["detail"] = "[symptoms vary from run to run: running `%s` again failed as %s; the part fails every time, the single case does not replay] %s" % (shown, again[0], v["detail"])
                     v["replay_cmd"] = {"cmd": v["cmd"], "env": v.get("env"), "match": "any"}
                 else:
-                    raise HarnessError("violation %s did not reproduce on replay (spec=%s) nor when its part was run again - harness nondeterminism; "
-                                       "replay printed %r\n%s" % (v["key"], v["spec"], keys, r.stderr[-2000:]))
+                    v["unreproduced"] = ("violation %s did not reproduce on replay (spec=%s) nor when its part was run again - harness nondeterminism; "
+                                         "replay printed %r\n%s" % (v["key"], v["spec"], keys, r.stderr[-2000:]))
             elif v["key"] not in keys:
                 raise HarnessError("violation %s did not reproduce on replay (spec=%s) - harness nondeterminism; "
                                    "replay printed %r\n%s" % (v["key"], v["spec"], keys, r.stderr[-2000:]))
+    # A report that reproduces neither alone nor with its part is not a verdict. If it is the only kind of report, the run has failed as a
+    # measurement (exit 2). If other violations of the same run DO reproduce, the tree is reported for those (a race in the code under
+    # test typically shows as one deterministic failure under the scheduler plus chance hits on real threads that cannot be replayed).
+    lost = [v for v in unknown if v.get("unreproduced")]
+    if lost and len(lost) == len(unknown):
+        raise HarnessError(lost[0]["unreproduced"])
+    for v in lost:
+        ctx.notes.append("not counted (seen once, did not reproduce): %s [%s]" % (v["key"], v["spec"]))
+        print("note: %s was reported once and did not reproduce (spec=%s); not counted" % (v["key"], v["spec"]))
+    unknown = [v for v in unknown if not v.get("unreproduced")]
     complete = all(c for _, c in ctx.bounds) and not ctx.expired()
     cov = dict(ctx.cov)
     cov.update(ctx.maxes)
